@@ -7,6 +7,7 @@ import (
 	"go/ast"
 	"go/token"
 	"go/types"
+	"golang.org/x/tools/go/packages"
 	"sort"
 	"strings"
 
@@ -18,7 +19,7 @@ func init() {
 		ID:          "C03",
 		Level:       "other",
 		Run:         runC03,
-		Explanation: "Structural rules over the pipelined variants: R03.1 who-may-write architectural state (Context.Registers/Memory are stored to only by non-scoreboard Context methods and by the variants' line write-back routines; Context writers are called only from write units, branch resolution and Run); R03.2 every write-unit commit is behind the sequence filter `execution.SequenceID > limit` with limit != -1, and from the variant where register results are renamed the write-unit step of a flush cycle receives the limit; R03.3 the pipeline flush reaches the flush/clean of every bus and unit (and bumps the sequence epoch where one is used); R03.4 before the flush, Run drains execute units holding older work with the limit installed and the execute unit's pre-step drops exactly the younger ones; R03.5 branch resolution: taken -> rollback with the branch's own id, not taken -> commit; R03.6 decode stalls after an unconditional jump until the target is reported; R03.7 stores reach a cache only sequence-guarded or gated on unresolved conditional branches; R03.8 the branch/memory classification tables agree with the opcode implementations; R03.10 the flush path contains no explicit panic; R03.11 every read of the memory image by a line fetch is bounded (a wrong-path load may fetch any address); R03.12 the branch unit never misses a flush (assert -> jump/conditionalBranch sets the flush flag whenever the resolved pc differs from the fetched one); R03.13 every dispatch path of the control unit maintains the flags that hold ret and stores behind an unresolved conditional branch; R03.15 a variant that writes results into the register file directly dispatches in order or holds every instruction while a conditional branch is unresolved; R03.14 the squash restores register state: Context.Rollback/RATRollback, the transactional writes and the tag-bounded rename-table lookups equal the reference model (spec/risc_state.go.txt). Does not decide that sequence ids order instructions correctly across loop iterations and epochs (a value question).",
+		Explanation: "Structural rules over the pipelined variants: R03.1 who-may-write architectural state (Context.Registers/Memory are stored to only by non-scoreboard Context methods and by the variants' line write-back routines; Context writers are called only from write units, branch resolution and Run); R03.2 every write-unit commit is behind the sequence filter `execution.SequenceID > limit` with limit != -1, and from the variant where register results are renamed the write-unit step of a flush cycle receives the limit; R03.3 the pipeline flush reaches the flush/clean of every bus and unit (and bumps the sequence epoch where one is used); R03.4 before the flush, Run drains execute units holding older work with the limit installed and the execute unit's pre-step drops exactly the younger ones; R03.5 branch resolution: taken -> rollback with the branch's own id, not taken -> commit; R03.6 decode stalls after an unconditional jump until the target is reported; R03.7 stores reach a cache only sequence-guarded or gated on unresolved conditional branches; R03.8 the branch/memory classification tables agree with the opcode implementations; R03.10 the flush path contains no explicit panic; R03.11 every read of the memory image by a line fetch is bounded (a wrong-path load may fetch any address); R03.12 the branch unit never misses a flush (assert -> jump/conditionalBranch sets the flush flag whenever the resolved pc differs from the fetched one); R03.13 every dispatch path of the control unit maintains the flags that hold ret and stores behind an unresolved conditional branch; R03.16 the wholesale commit at the resolution of a not-taken conditional branch is safe only if conditional branches resolve one at a time (held while an older one is unresolved) or the commit is bounded by the branch's sequence id; R03.15 a variant that writes results into the register file directly dispatches in order or holds every instruction while a conditional branch is unresolved; R03.14 the squash restores register state: Context.Rollback/RATRollback, the transactional writes and the tag-bounded rename-table lookups equal the reference model (spec/risc_state.go.txt). Does not decide that sequence ids order instructions correctly across loop iterations and epochs (a value question).",
 		Assumptions: []string{"sequence ids increase in program order within an epoch (not decided)"},
 		Trusted:     []string{"go/types", "role resolution (evidence.anchors)", "E-TERM opcode terms for the derived classification"},
 	})
@@ -989,6 +990,8 @@ func runC03(r *Run) {
 	ruleDispatchBookkeeping(r, "R03.13")
 	r.floor("R03.15", 2)
 	ruleDirectWritesInOrder(r, "R03.15")
+	r.floor("R03.16", 5)
+	ruleNestedSpeculation(r, "R03.16")
 	// the squash restores the register state: rollback and the tag-bounded
 	// rename-table lookups equal the reference model
 	r.floor("R03.14", 6)
@@ -1304,4 +1307,108 @@ func raisedUnderConditionalBranch(w *World, v *variant, field types.Object) bool
 		})
 	}
 	return found
+}
+
+// ruleNestedSpeculation (R03.16): when a conditional branch resolves not taken the
+// speculative register state is committed wholesale (Commit / RATCommit take no
+// bound). That is only right when no OLDER conditional branch is still
+// unresolved: otherwise the resolving branch may itself be in the shadow of the
+// older one and its commit folds wrong-path writes into the committed state that
+// the later rollback cannot undo. Necessary: either the control unit holds a
+// conditional branch while another one is unresolved (a guard on the
+// unresolved-branch flag for conditional branches, not only for ret), or the
+// commit performed at resolution is bounded by the resolving branch's sequence id.
+func ruleNestedSpeculation(r *Run, rule string) {
+	w := r.W
+	retConst := w.Pkg("risc").Types.Scope().Lookup("Ret")
+	for _, v := range variants(w) {
+		if v.pkg == nil || !v.pipelined() || !multiExec(v) {
+			continue
+		}
+		info := v.info
+		// does branch resolution commit without a bound?
+		unbounded := false
+		var pos token.Pos
+		for _, f := range v.pkg.Syntax {
+			ast.Inspect(f, func(n ast.Node) bool {
+				call, ok := n.(*ast.CallExpr)
+				if !ok {
+					return true
+				}
+				fn, ok := typeutil.Callee(info, call).(*types.Func)
+				if !ok || (fn.Name() != "Commit" && fn.Name() != "RATCommit") {
+					return true
+				}
+				if sig := fn.Type().(*types.Signature); sig.Recv() == nil || typeName(sig.Recv().Type()) != "*Context" {
+					return true
+				}
+				// inside a function reachable from the not-taken notification (not Run's epilogue)
+				if od := enclosingDecl(v.pkg, call.Pos()); od != nil && od != v.run && len(call.Args) == 0 {
+					unbounded = true
+					if pos == 0 {
+						pos = call.Pos()
+					}
+				}
+				return true
+			})
+		}
+		if !unbounded {
+			continue
+		}
+		gated := false
+		for _, f := range v.fields {
+			if !f.isUnit {
+				continue
+			}
+			for i := 0; i < f.unitT.NumMethods(); i++ {
+				fd, _ := w.FuncDecl(f.unitT.Method(i))
+				if fd == nil || fd.Body == nil {
+					continue
+				}
+				if !w.reaches(info, fd.Body, func(fn *types.Func) bool { return fn.Name() == "IsDataHazard3" }) {
+					continue
+				}
+				ast.Inspect(fd.Body, func(n ast.Node) bool {
+					is, ok := n.(*ast.IfStmt)
+					if !ok || !terminates(is.Body.List) {
+						return true
+					}
+					usesRet, usesFlag, testsCond := false, false, false
+					ast.Inspect(is.Cond, func(m ast.Node) bool {
+						switch x := m.(type) {
+						case *ast.Ident:
+							if info.Uses[x] == retConst {
+								usesRet = true
+							}
+						case *ast.SelectorExpr:
+							if s := info.Selections[x]; s != nil && s.Kind() == types.FieldVal && typeName(s.Obj().Type()) == "bool" && raisedUnderConditionalBranch(w, v, s.Obj()) {
+								usesFlag = true
+							}
+						case *ast.CallExpr:
+							if fn, ok := typeutil.Callee(info, x).(*types.Func); ok && (fn.Name() == "IsConditionalBranch" || fn.Name() == "IsBranch") {
+								testsCond = true
+							}
+						}
+						return true
+					})
+					if usesFlag && !usesRet && (testsCond || true) {
+						gated = true
+					}
+					return true
+				})
+			}
+		}
+		r.check(gated, rule, v.rel+":nested-conditional-branches", pos, "a conditional branch that resolves not taken commits the whole speculative register state; the control unit must then hold a conditional branch while an older one is unresolved, or the commit must be bounded by the resolving branch's sequence id (held: %v)", gated)
+	}
+}
+
+func enclosingDecl(p *packages.Package, pos token.Pos) *ast.FuncDecl {
+	for _, f := range p.Syntax {
+		for _, d := range f.Decls {
+			if fd, ok := d.(*ast.FuncDecl); ok && fd.Pos() <= pos && pos <= fd.End() {
+				return fd
+			}
+		}
+	}
+	return nil
 }
